@@ -7,7 +7,7 @@ git -C /repo worktree add -q --detach "$wt" HEAD >/dev/null 2>&1 || { echo "work
 if ! git -C "$wt" apply "$patch"; then echo "PATCH DOES NOT APPLY"; git -C /repo worktree remove --force "$wt"; exit 2; fi
 rc=0
 for id in "$@"; do
-  out=$(cd /verif && VERIF_REPO="$wt" VERIF_EVIDENCE_DIR="$wt/.evidence" ./bin/sa check "$id" --tier "${TIER:-quick}" 2>&1); c=$?
+  out=$(cd /verif && VERIF_REPO="$wt" VERIF_EVIDENCE_DIR="$wt/.evidence" ${SA:-./bin/sa} check "$id" --tier "${TIER:-quick}" 2>&1); c=$?
   echo "== $id exit=$c"
   echo "$out" | grep -E "^(VIOLATION|UNDECIDED|LOAD-ERROR|INTERNAL-ERROR|KNOWN)" | head -${LINES_MAX:-12}
   [ $c -ne 0 ] && rc=1
